@@ -36,18 +36,19 @@ type JNode struct {
 }
 
 type C16Case struct {
-	Mode     string `json:"mode"` // text | json-roundtrip | json-frame
-	Text     []byte `json:"text,omitempty"`
-	Carrier  string `json:"carrier"`           // inbound carrier type
-	Cuts     []int  `json:"cuts,omitempty"`    // for the fragmenting reader
-	Tree     *JNode `json:"tree,omitempty"`    // json-roundtrip: object to send
-	OutKind  string `json:"outkind,omitempty"` // map | raw | struct
-	UseNum   bool   `json:"usenum"`
-	Disallow bool   `json:"disallow"`
-	Frame    []byte `json:"frame,omitempty"`  // json-frame: raw inbound frame
-	Expect   string `json:"expect,omitempty"` // json-frame: reject | object
-	Mutation string `json:"mutation,omitempty"`
-	Loop     bool   `json:"loop"` // through a real channel with a varint frame codec underneath
+	Mode     string   `json:"mode"`            // text | json-roundtrip | json-frame | text-seq
+	Texts    [][]byte `json:"texts,omitempty"` // text-seq: messages received one after the other through the same codec instances
+	Text     []byte   `json:"text,omitempty"`
+	Carrier  string   `json:"carrier"`           // inbound carrier type
+	Cuts     []int    `json:"cuts,omitempty"`    // for the fragmenting reader
+	Tree     *JNode   `json:"tree,omitempty"`    // json-roundtrip: object to send
+	OutKind  string   `json:"outkind,omitempty"` // map | raw | struct
+	UseNum   bool     `json:"usenum"`
+	Disallow bool     `json:"disallow"`
+	Frame    []byte   `json:"frame,omitempty"`  // json-frame: raw inbound frame
+	Expect   string   `json:"expect,omitempty"` // json-frame: reject | object
+	Mutation string   `json:"mutation,omitempty"`
+	Loop     bool     `json:"loop"` // through a real channel with a varint frame codec underneath
 }
 
 var jsonKeys = []string{"a", "b", "key", "", "ключ", "k\"q", "tab\t", "é", "long-key-with-many-chars", "x y", "\\", "/", "<&>", "🙂"}
@@ -115,7 +116,16 @@ func genJObj(t *rapid.T, depth int) JNode {
 }
 
 func genC16(t *rapid.T) C16Case {
-	c := C16Case{Mode: rapid.SampledFrom([]string{"text", "json-roundtrip", "json-roundtrip", "json-frame", "json-frame"}).Draw(t, "mode")}
+	c := C16Case{Mode: rapid.SampledFrom([]string{"text", "json-roundtrip", "json-roundtrip", "json-frame", "json-frame", "text-seq"}).Draw(t, "mode")}
+	if c.Mode == "text-seq" {
+		// several messages through one channel whose frame codec reuses its read buffer (variable-length codec):
+		// a received string must stay what it was when later messages arrive
+		for i := rapid.IntRange(2, 4).Draw(t, "ntexts"); i > 0; i-- {
+			c.Texts = append(c.Texts, rapid.SliceOfN(rapid.Byte(), 1, 120).Draw(t, "seqtext"))
+		}
+		c.Carrier = "bytes"
+		return c
+	}
 	c.Carrier = rapid.SampledFrom([]string{"bytes", "breader", "buffer", "frag", "string"}).Draw(t, "carrier")
 	if c.Carrier == "frag" {
 		c.Cuts = rapid.SliceOfN(rapid.IntRange(1, 9), 1, 8).Draw(t, "cuts")
@@ -357,6 +367,10 @@ func runC16(c C16Case) (out core.Outcome) {
 	defer func() { out.Classes = cls.List() }()
 	cls.Add("mode:%s", c.Mode)
 	cls.Add("carrier:%s", c.Carrier)
+	if c.Mode == "text-seq" {
+		cls.Add("layer:channel")
+		return runC16Seq(c, cls, out)
+	}
 	if c.Loop {
 		cls.Add("layer:channel")
 		return runC16Loop(c, cls, out)
@@ -620,6 +634,44 @@ func runC16Loop(c C16Case, cls *core.ClassSet, out core.Outcome) core.Outcome {
 			}
 		}
 	}
+	return out
+}
+
+// runC16Seq: [variable-length frame codec, text codec, consumer] on a real channel; one transport read per message.
+func runC16Seq(c C16Case, cls *core.ClassSet, out core.Outcome) core.Outcome {
+	var mu sync.Mutex
+	var got []string
+	consumer := netty.InboundHandlerFunc(func(ctx netty.InboundContext, m netty.Message) {
+		if s, ok := m.(string); ok {
+			mu.Lock()
+			got = append(got, s) // kept as delivered
+			mu.Unlock()
+		}
+	})
+	rig := newChanRig(0, frame.VariableLengthCodec(4096), format.TextCodec(), consumer)
+	rig.keepOpen = true
+	defer rig.shutdown()
+	for _, txt := range c.Texts {
+		rig.tr.Feed(txt)
+		if !rig.quiesce(10 * time.Second) {
+			out.Inconclusive = "text-seq: read loop did not become idle"
+			return out
+		}
+	}
+	mu.Lock()
+	defer mu.Unlock()
+	if ex := rig.exceptions(); len(ex) > 0 || len(got) != len(c.Texts) {
+		out.Violation = core.Viol("C16/text-seq-delivery", "%d messages delivered for %d sent, exceptions %v", len(got), len(c.Texts), ex)
+		return out
+	}
+	for i, txt := range c.Texts {
+		if got[i] != string(txt) {
+			out.Violation = core.Viol("C16/text-read-altered", "message %d of %d: the string received for %q reads %q after later messages arrived", i, len(c.Texts), txt, got[i])
+			return out
+		}
+	}
+	out.NonTrivial = true
+	cls.Add("text-sequence")
 	return out
 }
 
